@@ -4,8 +4,10 @@ import (
 	"encoding/json"
 	"flag"
 	"fmt"
+	"math/big"
 	"os"
 	"path/filepath"
+	"reflect"
 	"sort"
 	"strconv"
 	"strings"
@@ -128,3 +130,23 @@ func TestReplay(t *testing.T) {
 }
 
 func abciEndBlock() abci.RequestEndBlock { return abci.RequestEndBlock{} }
+
+func containsFold(s, sub string) bool {
+	return strings.Contains(strings.ToLower(s), strings.ToLower(sub))
+}
+
+// reflectField reads a *big.Int field of an anonymous ABI-decoded struct.
+func reflectField(v interface{}, name string) *big.Int {
+	rv := reflect.ValueOf(v)
+	if rv.Kind() == reflect.Ptr {
+		rv = rv.Elem()
+	}
+	f := rv.FieldByName(name)
+	if !f.IsValid() {
+		return new(big.Int)
+	}
+	if b, ok := f.Interface().(*big.Int); ok {
+		return b
+	}
+	return new(big.Int)
+}
